@@ -250,3 +250,29 @@ Theorem C02_prim_funcs_values_never_panic : forall pf pp ff funcs_r funcs_i awk 
   forall k, run pf pp ff funcs_r funcs_i awk name args <> OPanic k.
 Proof. exact C17_never_panics. Qed.
 Print Assumptions C02_prim_funcs_values_never_panic.
+
+From Verif Require Import Model.Printf Proofs.PrintfParse Properties.C09.
+
+(* sprintf / printf: argument indexing, the %c slice, types[i+1], stars[0] and the cut of ".*" out
+   of the cached format never go out of range, whatever the format and arguments  [C09] *)
+Theorem C02_prim_sprintf_no_panic : forall chars ffmt format args,
+  (forall x, PrintfParse.no_panic (ffmt x)) -> PrintfParse.no_panic (Printf.sprintf chars ffmt format args).
+Proof. exact C09_sprintf_no_panic. Qed.
+Print Assumptions C02_prim_sprintf_no_panic.
+
+From Verif Require Import Model.Value Properties.C05.
+
+(* the numeric-prefix scanner (hasNaNPrefix / hasInfPrefix / hasHexPrefix and the digit loops)
+   never indexes past the string  [C05] *)
+Theorem C02_prim_prefix_scan_no_panic : forall s, Value.scan_prefix s <> Value.PSPanic.
+Proof. exact C05_prefix_scan_no_panic. Qed.
+Print Assumptions C02_prim_prefix_scan_no_panic.
+
+From Verif Require Import Model.Fields Proofs.FieldsSpec Properties.C06.
+
+(* $0 / fields / NF: no script of record, field and NF updates makes the record code slice or
+   index out of range  [C06] *)
+Theorem C02_prim_fields_no_panic : forall rx am, C06.engine_ok rx am ->
+  forall ops, Forall (FieldsSpec.op_safe rx) ops -> Fields.run rx am ops (Fields.init rx) <> Panic.
+Proof. exact C06_no_panic. Qed.
+Print Assumptions C02_prim_fields_no_panic.
